@@ -19,6 +19,8 @@ structure FinOK (p : Pool) : Prop where
   ir : ∀ (m : Nat) (r : Req), p.reqs[m]? = some r → r.outcome = none → r.everCancelled = false → r.inRunning = true
   ok : ∀ (m : Nat) (r : Req), p.reqs[m]? = some r → r.everCancelled = false → ∀ o, r.outcome = some o →
          (o = .ok ∧ r.remaining = 0 ∧ r.items = []) ∨ (r.kind = .map ∧ o = .exc (.user 4))
+  /-- `map` rejects `num_concurrent < 1` (the ghost `nc` is the initial value of the call's own semaphore) -/
+  nc1 : ∀ (m : Nat) (r : Req), p.reqs[m]? = some r → r.kind = .map → 1 ≤ r.nc
 
 /-- the invariant that is lifted: `Want` (needed for "a spawner with an outcome is never stepped again") and `FinOK` -/
 def WantFin (p : Pool) : Prop := Want p ∧ FinOK p
